@@ -152,6 +152,30 @@ var c14Kind = registerKind("c14", func(in c14In) string {
 			_ = np2.(cu).UnmarshalCBOR([]byte{0xa1, 0x19, 0x09, 0x5a, 0x01})
 			others["P2 object that decoded a token without eat_profile"] = np2
 		}
+		for i, prep := range []func(psatoken.IClaims){
+			func(c psatoken.IClaims) { _ = c.SetSecurityLifeCycle(0x1100) },
+			func(c psatoken.IClaims) { _ = c.SetNonce([]byte{1}) },
+			func(c psatoken.IClaims) { _ = c.SetImplID(nil); _ = c.SetInstID([]byte{2}); _ = c.SetVSI("") },
+			func(c psatoken.IClaims) {
+				_ = c.SetSecurityLifeCycle(0x3000)
+				_ = c.SetSecurityLifeCycle(0xffff)
+				_ = c.SetSoftwareComponents([]psatoken.ISwComponent{&psatoken.SwComponent{}})
+			},
+		} {
+			rc, _ := psatoken.NewClaims(p.Name())
+			prep(rc)
+			if i == 3 {
+				// holds 0x3000 from the accepted call: the getter case below
+				// is only meaningful for valid v
+				if !valid {
+					if serr := rc.SetSecurityLifeCycle(v); serr == nil {
+						return fmt.Sprintf("%s: SetSecurityLifeCycle(0x%04x) accepted after earlier refused calls", p, v)
+					}
+					continue
+				}
+			}
+			others[fmt.Sprintf("%s object on which earlier setter calls were refused (#%d)", p, i)] = rc
+		}
 		for what, oc := range others {
 			serr := oc.SetSecurityLifeCycle(v)
 			if (serr == nil) != valid {
@@ -204,7 +228,7 @@ var c14Kind = registerKind("c14", func(in c14In) string {
 })
 
 func TestC14_All(t *testing.T) {
-	st := NewStats("C14", "TestC14_All", "all 65536 lifecycle values, exhaustively, against a table oracle: LifeCycleToState, state name, IsValid, ValidateSecurityLifeCycle, both profiles' setter+getter (on a fresh claims-set and on ones already holding the same / a valid / an invalid value), struct-literal getter+Validate, setter+getter on zero-value objects, on objects that decoded a document without / with a foreign profile claim and on instances of derived profiles, CBOR decode-and-validate of a token carrying the value (thorough: also the JSON route). Non-trivial = a value other than the 18 the repository's table test pins; distinct = value")
+	st := NewStats("C14", "TestC14_All", "all 65536 lifecycle values, exhaustively, against a table oracle: LifeCycleToState, state name, IsValid, ValidateSecurityLifeCycle, both profiles' setter+getter (on a fresh claims-set and on ones already holding the same / a valid / an invalid value), struct-literal getter+Validate, setter+getter on zero-value objects, on objects that decoded a document without / with a foreign profile claim and on instances of derived profiles and on objects on which earlier setter calls were refused, CBOR decode-and-validate of a token carrying the value (thorough: also the JSON route). Non-trivial = a value other than the 18 the repository's table test pins; distinct = value")
 	st.Exhaustive = true
 	defer st.Flush(t)
 	pinned := map[int]bool{}
